@@ -10,7 +10,8 @@ TRUSTED = [
     "hand-written model coq/Model/Sorts.v of sql/pq/postprocess.rs SortingInference (kind level; sort keys opaque), tied to the code on every run by comparing its output with the implementation's PQ before/after post-processing (public debug log)",
     "reference semantics coq/Model/Rel.v + Value.v (specification of sort/take/filter/select/derive/join on lists of rows)",
     "end-to-end oracle: generator vplib/rel/prog.py, harness (prqlc::compile, bundled SQLite), comparison vplib/rel/run.py",
-    "modelled, not verified: column identity of sort keys across sub-query boundaries (cid redirects, alias_last_sorting), the flattener (Take.sort / window sort propagation) and SQLite's ORDER BY semantics are covered by execution only",
+    "hand-written model coq/Model/Flatten.v of semantic/resolver/flatten.rs (kind level: carried sort, sort_undone, partition of nested groups, aggregate ending the sort, relational arguments), tied on every run by comparing its output with the implementation's RQ on every generated program and on random nested shapes",
+    "modelled, not verified: column identity of sort keys across sub-query boundaries (cid redirects, alias_last_sorting) and SQLite's ORDER BY semantics are covered by execution only",
 ]
 
 DIRS = {"Asc": "false", "Desc": "true"}
@@ -463,6 +464,10 @@ def run():
         vals = rng.sample(range(-3, 12), len(inst["t"]))
         inst["t"] = [r[:ai] + [v] + r[ai + 1:] for r, v in zip((list(x) for x in inst["t"]), vals)]
         cases.append((selfjoin_program(rng), [inst, permuted(rng, inst)]))
+    # one hand-built program per open finding the random streams seldom hit
+    for _fid, pg, inst in E.directed_known(rng):
+        inst = inst or P.gen_instance(rng, max_rows=7, min_rows=5)
+        cases.append((pg, [inst, permuted(rng, inst)]))
     for _ in range(ck.n(260, 4000) * (3 if broken else 1)):
         pg = g.program()
         inst = P.gen_instance(rng, max_rows=7, min_rows=3)
@@ -479,10 +484,11 @@ def run():
         if pg.prql() not in seenp:
             seenp.add(pg.prql())
             progs.append(pg)
-    flatten_stream(ck, progs)
+    fs = FlatShapes(rng)
+    flatten_stream(ck, progs, [fs.case() for _ in range(ck.n(250, 2500) * (3 if broken else 1))])
 
     ck.proof_broken_violation(found_input=bool(ck.violations))
     ck.assumptions += ["each ordered program runs on two insertion orders of the same rows, so an order that is only incidental on one of them shows",
                        "positional transforms are only generated while the order in effect ends in a unique key (documented meaning deterministic); ties are checked through the key columns when they survive to the result",
                        "a syntactic clause accompanies execution: when an order is in effect and more than one row is returned, the outermost query must carry an ORDER BY"]
-    ck.finish(TRUSTED, "streams: order = sort followed by each of 13 transform kinds (directed) + random pipelines weighted towards sort/take/select/join, each on 2 insertion orders x {sqlite, generic}, compared as sequences; infer = Model/Sorts.v run on the implementation's pre-postprocess PQ vs its post-processed PQ for every distinct program. distinct = hash of (program, target, instance); non-trivial = non-empty result or a failure")
+    ck.finish(TRUSTED, "streams: order = sort followed by each of 13 transform kinds (directed) + random pipelines weighted towards sort/take/select/join, each on 2 insertion orders x {sqlite, generic}, compared as sequences; infer = Model/Sorts.v run on the implementation's pre-postprocess PQ vs its post-processed PQ for every distinct program; flatten = Model/Flatten.v (and its specification carried_spec) vs the order-sensitive transforms of the implementation's RQ for every generated program + random nested shapes (groups in groups, window bodies, aggregates inside and outside of groups, relational arguments). distinct = hash of (program, target, instance); non-trivial = non-empty result or a failure")
